@@ -1,6 +1,7 @@
 package pbytes
 
 import (
+	"encoding/binary"
 	"encoding/hex"
 	"encoding/json"
 	"fmt"
@@ -17,6 +18,7 @@ import (
 
 func init() {
 	vk.Register("C20", "mbits", runBits)
+	vk.Register("C20", "mbitsval", runBits)
 	vk.Register("C20", "trunc", runTrunc)
 	vk.Register("C20", "natural", runNat)
 	vk.Register("C20", "naturalrand", runNat)
@@ -201,6 +203,51 @@ func TestC20Bits(t *testing.T) {
 	}
 	h.Exhaustive()
 	h.Note("lengths 0..%d x 8 address alignments x {every zero/non-zero pattern (len <= %d); all-zero + every single non-zero byte (all lengths); every pair of non-zero bytes (len <= %d); %d seeded random patterns (longer)}; each with surrounding bytes 0x00 and 0xFF", maxLen, maxExh, maxPairs, nRandom)
+}
+
+// TestC20BitsValues: the exhaustive leg varies WHERE the non-zero bytes are;
+// this one varies their VALUES so that groups of 8-byte words cancel under
+// addition or exclusive-or (a block test written as "w0+w1+w2+w3 != 0" or
+// "w0^w1 != 0" sees zero where an OR would not), at every alignment, behind
+// zero prefixes of 0..80 bytes.
+func TestC20BitsValues(t *testing.T) {
+	h := vk.Start(t, "C20", "mbitsval")
+	vk.Rapid(h, t, func(t *rapid.T) BitsCase {
+		word := rapid.OneOf(
+			rapid.SampledFrom([]uint64{0, 1, 0x80, 0xff, 1 << 63, 1 << 56, 1 << 32, 1<<32 - 1, math.MaxUint64, 0x0101010101010101, 0x8080808080808080}),
+			rapid.Uint64())
+		g := rapid.SampledFrom([]int{2, 2, 4, 4, 8}).Draw(t, "group")
+		ws := rapid.SliceOfN(word, g-1, g-1).Draw(t, "words")
+		var last uint64
+		switch rapid.IntRange(0, 2).Draw(t, "cancel") {
+		case 0: // the words sum to 0 modulo 2^64
+			for _, w := range ws {
+				last -= w
+			}
+		case 1: // the words xor to 0
+			for _, w := range ws {
+				last ^= w
+			}
+		default:
+			last = word.Draw(t, "lastWord")
+		}
+		ws = append(ws, last)
+		if rapid.Bool().Draw(t, "rotate") { // the cancelling word anywhere in the group
+			k := rapid.IntRange(0, g-1).Draw(t, "rot")
+			ws = append(ws[k:], ws[:k]...)
+		}
+		data := make([]byte, rapid.IntRange(0, 80).Draw(t, "zeroPrefix"), 200)
+		for _, w := range ws {
+			data = binary.LittleEndian.AppendUint64(data, w)
+		}
+		for k := rapid.IntRange(0, 40).Draw(t, "zeroSuffix"); k > 0; k-- {
+			data = append(data, 0)
+		}
+		if rapid.IntRange(0, 3).Draw(t, "ragged") == 0 { // a length that is not a multiple of 8
+			data = data[:len(data)-rapid.IntRange(0, min(7, len(data))).Draw(t, "cut")]
+		}
+		return BitsCase{Off: rapid.IntRange(0, 7).Draw(t, "off"), Pat: hex.EncodeToString(data)}
+	}, runBits)
 }
 
 func seqInts(n int) []int {
